@@ -14,6 +14,7 @@ import (
 	"github.com/XiaoMi/Gaea/mysql"
 	"github.com/XiaoMi/Gaea/util"
 	"github.com/XiaoMi/Gaea/util/sync2"
+	uber_atomic "go.uber.org/atomic"
 )
 
 // White-box helpers for the /verif harness (overlay only).
@@ -48,6 +49,8 @@ func VerifNewManager(dc string, nss map[string]*models.Namespace) (*Manager, err
 	}
 	// per-namespace channels of the shared statistics object must belong to the current run
 	st.SQLResponsePercentile = make(map[string]*SQLResponse)
+	// so must the per-namespace client connection counters: a count leaked by one run must not reach the next
+	st.clientConnecions = sync.Map{}
 	m := NewManager()
 	m.statistics = st
 	current, _, _ := m.switchIndex.Get()
@@ -58,6 +61,15 @@ func VerifNewManager(dc string, nss map[string]*models.Namespace) (*Manager, err
 	}
 	m.users[current] = user
 	return m, nil
+}
+
+// VerifClientConnections reads the proxy's count of client connections of a namespace (-1: never counted).
+func VerifClientConnections(m *Manager, namespace string) int {
+	v, ok := m.statistics.clientConnecions.Load(namespace)
+	if !ok {
+		return -1
+	}
+	return int(v.(*uber_atomic.Int32).Load())
 }
 
 // VerifNamespaceMaxExecuteTime exposes a configuration field the harness uses as a version stamp.
